@@ -225,7 +225,10 @@ Definition judge_kernel (c : k_case) : Z :=
     if zl_eqb (g_data g) d && zl_eqb (g_indices g) i && zl_eqb (g_indptr g) p then 0 else 1
   | KTranspose g ca d i p =>
     let h := gcxs_transpose_same g ca in
-    if zl_eqb (g_data h) d && zl_eqb (g_indices h) i && zl_eqb (g_indptr h) p then 0 else 1
+    if zl_eqb (g_data h) d && zl_eqb (g_indices h) i && zl_eqb (g_indptr h) p then 0
+    else (* the arrays differ from the model's: do they still mean the same array? *)
+      let o := SGcxs (mkGCXS (g_shape g) ca d i p (g_fill g)) in
+      if opt_eqb zl_eqb (sarr_flat o) (sarr_flat (SGcxs g)) then 1 else 2
   | KLinearLoc sh coords out => if zl_eqb (map (ravel sh) coords) out then 0 else 1
   end.
 
